@@ -20,6 +20,9 @@
 (*        consumed, ssame), decoded by the generic decoder (gacc), driven  *)
 (*        through the entry points (ent), with allocation and panic.       *)
 (*  gen : bytes b were decoded by the generic decoder only.                *)
+(*  big : a large input given by a descriptor was decoded into type ty by  *)
+(*        DecodeBytes (d), by a stream without input limit (u) and by the  *)
+(*        generic decoder (g): accepted, allocation, bytes consumed.       *)
 (***************************************************************************)
 EXTENDS Rlp
 
@@ -28,13 +31,19 @@ TraceLog == ndJsonDeserialize("trace.ndjson")
 VARIABLES l, viol, fired
 mvars == <<c, l, viol, fired>>
 
-\* "never allocates far beyond the input size": a measured resource bound, generous constants
-AllocC == 256
-AllocK == 1048576
+\* "never allocates far beyond the input size": a measured resource bound.  What a decoder may spend is bounded by the
+\* bytes it CONSUMED before it returned (for an accepted input: all of them; for a rejected one: the prefix it looked at),
+\* so a size field that is merely announced buys nothing and an input rejected at its first element costs the fixed part
+\* only.  Calibration on the unchanged tree (checks/C14.py writes the observed maxima of every run to the evidence):
+\* accepted inputs cost at most 140 bytes per consumed byte (a list of one-byte items decoded into interface values;
+\* 126 into byte slices, 11 for the node's struct types), rejected ones at most 19; the fixed cost of a decode stays below
+\* 7 KiB.  The bound is the steepest honest rate with a margin of about a third, and 16 KiB.
+AllocC == 192
+AllocK == 16384
 \* entry points that read the node's own database are not "hostile input" entry points: only NoPanic is asked of them
 DiskEntry == {"ReadVoteData", "rawdb.ReadBody"}
 
-Clauses == {"RoundTrip", "EncodeDeterministic", "AcceptImpliesCanonical", "GenericAgrees", "NoPanic", "RejectNotCrash", "AllocBounded"}
+Clauses == {"RoundTrip", "EncodeDeterministic", "AcceptImpliesCanonical", "OneHash", "GenericAgrees", "NoPanic", "RejectNotCrash", "AllocBounded"}
 
 \* discriminator of an input that was accepted although it is not THE encoding of a value
 Class(ty, s, p) ==
@@ -45,7 +54,10 @@ Class(ty, s, p) ==
 \* "decoding arbitrary bytes never panics"
 PanicV(e, ln) == IF e.pan # "" THEN {<<"NoPanic", {e.ty, e.ev}, ln>>} ELSE {}
 \* "never allocates far beyond the input size"
-AllocV(e, ln) == IF e.alloc > AllocC * Len(e.b) + AllocK THEN {<<"AllocBounded", {e.ty}, ln>>} ELSE {}
+Over(alloc, cons) == alloc > AllocC * cons + AllocK
+AllocV(e, ln) == (IF e.ev = "dec" /\ Over(e.alloc, e.scons) THEN {<<"AllocBounded", {e.ty, IF e.acc THEN "accepted" ELSE "rejected"}, ln>>} ELSE {})
+                 \cup (IF e.ev = "dec" /\ Over(e.galloc, e.gcons) THEN {<<"AllocBounded", {"generic", IF e.gacc THEN "accepted" ELSE "rejected"}, ln>>} ELSE {})
+                 \cup (IF e.ev = "gen" /\ Over(e.alloc, e.cons) THEN {<<"AllocBounded", {"generic", IF e.gacc THEN "accepted" ELSE "rejected"}, ln>>} ELSE {})
 \* the generic decoder accepts exactly the encodings
 GenericV(e, p, ln) == IF e.gacc # p.ok THEN {<<"GenericAgrees", {IF e.gacc THEN "accepts_noncanonical" ELSE "rejects_canonical"}, ln>>} ELSE {}
 
@@ -75,11 +87,26 @@ StreamV(e, s, d, ln) ==
    IF e.sacc /\ e.pan = "" /\ ~(e.ssame /\ d.ok /\ d.nx = e.scons + 1 /\ Match(s, d.it, TRUE))
    THEN {<<"AcceptImpliesCanonical", {"stream"} \cup Class(e.ty, s, d), ln>>} ELSE {}
 
+\* "equal objects have one encoding and one hash": the decoded object's Hash()/Size() (and those of the objects inside
+\* it) are the ones of a fresh object built from its re-encoding -- whatever bytes it was received as.  Judged
+\* independently of AcceptImpliesCanonical.
+HashV(e, ln) == IF e.acc /\ e.pan = "" /\ e.oh1 # e.oh2 THEN {<<"OneHash", {e.ty, "hash_follows_received_bytes"}, ln>>} ELSE {}
+
+\* large inputs, judged by their descriptor (Rlp.tla: Expand, BigAccept, BigGeneric)
+BigV(e, ln) ==
+   LET d == [ty |-> e.ty, kind |-> e.kind, cnt |-> e.cnt, present |-> e.present, elem |-> e.elem, pre |-> e.pre, post |-> e.post, j |-> e.j]
+       forms == << <<"bytes", e.d>>, <<"unlimited_stream", e.u>> >>
+   IN PanicV(e, ln)
+      \cup UNION { IF forms[i][2].acc /\ ~BigAccept(d, TRUE) THEN {<<"AcceptImpliesCanonical", {e.ty, "big", e.kind, forms[i][1]}, ln>>} ELSE {} : i \in 1..2 }
+      \cup (IF e.g.acc # BigGeneric(d) THEN {<<"GenericAgrees", {"big", IF e.g.acc THEN "accepts_noncanonical" ELSE "rejects_canonical"}, ln>>} ELSE {})
+      \cup UNION { IF Over(x[2].alloc, x[2].cons) THEN {<<"AllocBounded", {e.ty, "big", e.kind, x[1], IF x[2].acc THEN "accepted" ELSE "rejected"}, ln>>} ELSE {}
+                   : x \in { <<"bytes", e.d>>, <<"unlimited_stream", e.u>>, <<"generic", e.g>> } }
+
 DecV(e, ln) == LET s == Schema(e.ty)
                    d == ParseFirst(e.b)                                     \* first item
                    p == IF d.ok /\ d.nx = Len(e.b) + 1 THEN d ELSE BadDec   \* = Parse(e.b)
                IN
-   PanicV(e, ln) \cup AllocV(e, ln) \cup GenericV(e, p, ln) \cup AcceptV(e, s, p, ln) \cup StreamV(e, s, d, ln)
+   PanicV(e, ln) \cup AllocV(e, ln) \cup GenericV(e, p, ln) \cup AcceptV(e, s, p, ln) \cup StreamV(e, s, d, ln) \cup HashV(e, ln)
    \cup UNION { EntryV(e, s, p, e.ent[i], ln) : i \in DOMAIN e.ent }
 
 GenV(e, ln) == PanicV(e, ln) \cup AllocV(e, ln) \cup GenericV(e, Parse(e.b), ln)
@@ -101,17 +128,20 @@ Judge(e, ln) == CASE e.ev = "dec" -> DecV(e, ln)
                   [] e.ev = "gen" -> GenV(e, ln)
                   [] e.ev = "rt"  -> RtV(e, ln)
                   [] e.ev = "det" -> DetV(e, ln)
+                  [] e.ev = "big" -> BigV(e, ln)
                   [] OTHER -> {}
 
 \* how often the antecedent of each clause held
 Fire(e) == [k \in Clauses |->
    CASE k = "RoundTrip" -> IF e.ev = "rt" THEN 1 ELSE 0
      [] k = "EncodeDeterministic" -> IF e.ev = "det" THEN 1 ELSE 0
-     [] k = "AcceptImpliesCanonical" -> IF e.ev = "dec" THEN (IF e.acc THEN 1 ELSE 0) + (IF e.sacc THEN 1 ELSE 0) ELSE 0
-     [] k = "GenericAgrees" -> IF e.ev \in {"dec", "gen"} THEN 1 ELSE 0
-     [] k = "NoPanic" -> IF e.ev \in {"dec", "gen", "rt", "det"} THEN 1 ELSE 0
+     [] k = "AcceptImpliesCanonical" -> IF e.ev = "dec" THEN (IF e.acc THEN 1 ELSE 0) + (IF e.sacc THEN 1 ELSE 0)
+                                        ELSE IF e.ev = "big" THEN (IF e.d.acc THEN 1 ELSE 0) + (IF e.u.acc THEN 1 ELSE 0) ELSE 0
+     [] k = "OneHash" -> IF e.ev = "dec" /\ e.acc /\ e.oh1 # "" THEN 1 ELSE 0
+     [] k = "GenericAgrees" -> IF e.ev \in {"dec", "gen", "big"} THEN 1 ELSE 0
+     [] k = "NoPanic" -> IF e.ev \in {"dec", "gen", "rt", "det", "big"} THEN 1 ELSE 0
      [] k = "RejectNotCrash" -> IF e.ev = "dec" THEN Len(e.ent) ELSE 0
-     [] k = "AllocBounded" -> IF e.ev \in {"dec", "gen"} THEN 1 ELSE 0]
+     [] k = "AllocBounded" -> IF e.ev = "dec" THEN 2 ELSE IF e.ev = "gen" THEN 1 ELSE IF e.ev = "big" THEN 3 ELSE 0]
 
 MInit == c = 0 /\ l = 1 /\ viol = {} /\ fired = [k \in Clauses |-> 0]
 Step == /\ l <= Len(TraceLog)
